@@ -175,26 +175,15 @@ def absBin (P : Platform) (op : BinOp) (ta tb : Ty) (a b : AbsVal) : AbsVal :=
            | _, _ => [])
       | .mul =>
         match a'.isConst, b'.isConst with
-        | _, some c => if c ≥ 0 then aarith P t (a'.lo * c) (a'.hi * c) else aarith P t (a'.hi * c) (a'.lo * c)
-        | some c, _ => if c ≥ 0 then aarith P t (c * b'.lo) (c * b'.hi) else aarith P t (c * b'.hi) (c * b'.lo)
+        | _, some c =>
+          if c = 0 then aarith P t 0 0
+          else if c > 0 then aarithNe P t (a'.lo * c) (a'.hi * c) (a'.ne.map (· * c))
+          else aarithNe P t (a'.hi * c) (a'.lo * c) (a'.ne.map (· * c))
+        | some c, _ =>
+          if c = 0 then aarith P t 0 0
+          else if c > 0 then aarithNe P t (c * b'.lo) (c * b'.hi) (b'.ne.map (c * ·))
+          else aarithNe P t (c * b'.hi) (c * b'.lo) (b'.ne.map (c * ·))
         | _, _ => top P t
-      | .div =>
-        match b'.isConst with
-        | some c => if c > 0 ∧ a'.lo ≥ 0 then .range (a'.lo / c) (a'.hi / c) else top P t
-        | none => top P t
-      | .mod =>
-        match b'.isConst with
-        | some c =>
-          if c = 0 then top P t
-          else
-            let m := c.natAbs - 1
-            if a'.lo ≥ 0 then .range 0 (min a'.hi m) else .range (-m) m
-        | none => top P t
-      | .band =>
-        if a'.isConst = some 0 ∨ b'.isConst = some 0 then .const 0
-        else match b'.isConst with
-          | some c => if c ≥ 0 ∧ ¬ t.signed then .range 0 c else top P t
-          | none => top P t
       | .lt | .le | .gt | .ge | .eq | .ne => ofOptBool (acmp op a' b')
       | _ => top P t
 
@@ -205,7 +194,7 @@ def absUn (P : Platform) (op : UnOp) (ta : Ty) (a : AbsVal) : AbsVal :=
   | .neg =>
     let t := promote P ta
     let a' := aconv P t a
-    aarith P t (-a'.hi) (-a'.lo)
+    aarithNe P t (-a'.hi) (-a'.lo) (a'.ne.map (fun p => -p))
   | .compl =>
     match a.isConst with
     | some c => match evalUn P .compl ta c with
@@ -232,10 +221,14 @@ def leqEnv : AEnv → AEnv → Bool
   | [], [] => true
   | _, _ => false
 
-def ojoin : Option AEnv → Option AEnv → Option AEnv
+/-- an abstract environment of exactly `n` variables (every environment the validator builds has the length of the
+    variable table; the guard makes that a local fact instead of a global invariant) -/
+def fixLen (n : Nat) (s : AEnv) : AEnv := if s.length = n then s else List.replicate n (.const 0)
+
+def ojoin (n : Nat) : Option AEnv → Option AEnv → Option AEnv
   | none, b => b
   | a, none => a
-  | some a, some b => some (joinEnv a b)
+  | some a, some b => some (joinEnv (fixLen n a) (fixLen n b))
 
 def oleq : Option AEnv → AEnv → Bool
   | none, _ => true
@@ -360,12 +353,12 @@ def assume (c : Ctx) : Expr → Bool → AEnv → Option AEnv
     | none => none
     | some s1 => assume c b true s1
   | .land a b, false, s =>
-    ojoin (assume c a false s)
+    ojoin c.vars.length (assume c a false s)
       (match assume c a true s with
        | none => none
        | some s1 => assume c b false s1)
   | .lor a b, true, s =>
-    ojoin (assume c a true s)
+    ojoin c.vars.length (assume c a true s)
       (match assume c a false s with
        | none => none
        | some s1 => assume c b true s1)
@@ -426,7 +419,7 @@ def findInv (c : Ctx) (condT : AEnv → Option AEnv) (bodyF : AEnv → Bool × A
     | none => s
     | some st =>
       let o := (bodyF st).2
-      match ojoin (ojoin (some s) o.normal) o.cont with
+      match ojoin c.vars.length (ojoin c.vars.length (some s) o.normal) o.cont with
       | some s' => if leqEnv s' s then s else findInv c condT bodyF xs k s'
       | none => s
 
@@ -454,7 +447,7 @@ def checkS (c : Ctx) : Stmt → AEnv → Bool × AOut
     | none => (ok1, o1)
     | some s1 =>
       let (ok2, o2) := checkS c b s1
-      (ok1 && ok2, ⟨o2.normal, ojoin o1.brk o2.brk, ojoin o1.cont o2.cont⟩)
+      (ok1 && ok2, ⟨o2.normal, ojoin c.vars.length o1.brk o2.brk, ojoin c.vars.length o1.cont o2.cont⟩)
   | .ite cnd a b, s =>
     let (ok0, _) := checkE c s cnd
     let (ok1, o1) := match assume c cnd true s with
@@ -463,7 +456,7 @@ def checkS (c : Ctx) : Stmt → AEnv → Bool × AOut
     let (ok2, o2) := match assume c cnd false s with
       | none => (true, AOut.bot)
       | some sf => checkS c b sf
-    (ok0 && ok1 && ok2, ⟨ojoin o1.normal o2.normal, ojoin o1.brk o2.brk, ojoin o1.cont o2.cont⟩)
+    (ok0 && ok1 && ok2, ⟨ojoin c.vars.length o1.normal o2.normal, ojoin c.vars.length o1.brk o2.brk, ojoin c.vars.length o1.cont o2.cont⟩)
   | .while cnd body, s =>
     let inv := findInv c (assume c cnd true) (fun s' => checkS c body s') (assigned body) loopRounds s
     if !leqEnv s inv then (false, AOut.bot)
@@ -474,7 +467,7 @@ def checkS (c : Ctx) : Stmt → AEnv → Bool × AOut
       | none => (ok0, ⟨sf, none, none⟩)
       | some st =>
         let (ok1, o) := checkS c body st
-        if oleq o.normal inv && oleq o.cont inv then (ok0 && ok1, ⟨ojoin sf o.brk, none, none⟩)
+        if oleq o.normal inv && oleq o.cont inv then (ok0 && ok1, ⟨ojoin c.vars.length sf o.brk, none, none⟩)
         else (false, AOut.bot)
   | .brk, s => (true, ⟨none, some s, none⟩)
   | .cont, s => (true, ⟨none, none, some s⟩)
